@@ -71,7 +71,12 @@ Respond(r) ==
   /\ r \notin {"ok", "refused"} => nfail < MaxFail
   /\ nfail' = IF r \in {"ok", "refused"} THEN nfail ELSE nfail + 1
   /\ LET body == IF r = "refused" THEN "none" ELSE IF r = "early503" THEN "partial" ELSE IF dirty THEN "corrupt" ELSE "intact"
-         rec == [base |-> Bases[i], enc |-> Enc, accept |-> accept, resp |-> r, body |-> body]
+         \* compresshttp.Middleware picks the response encoding from the request's Accept-Encoding (net/http adds "gzip" when the
+         \* client set none); error responses are never compressed
+         respEnc == IF r # "ok" THEN "identity"
+                    ELSE IF Variant = "CompressUnasked" THEN "snappy"
+                    ELSE IF accept = "" THEN "gzip" ELSE Select(accept)
+         rec == [base |-> Bases[i], enc |-> Enc, accept |-> accept, resp |-> r, body |-> body, respEnc |-> respEnc]
      IN log' = Append(log, rec)
   \* request.Body.Close(): a reader that has not finished keeps running unless the close fences it
   /\ stale' = IF r = "early503" /\ ~Fenced(Enc) THEN stale \cup {Attempt} ELSE stale
@@ -155,6 +160,10 @@ GiveUpRule ==
      LET l == log[Len(log)] IN
        \/ ~Temporary(l.resp) /\ l.resp # "ok" /\ ~(l.resp = "s406" /\ l.accept # "")   \* a 406 to an encoded request is never final
        \/ Temporary(l.resp) /\ i = Len(Bases)
+
+\* the response is encoded only in a way the request offered
+Listed(a) == CASE a = "" -> {"gzip"} [] a = "gzip" -> {"gzip"} [] a = "snappy+gzip" -> {"gzip", "snappy"} [] OTHER -> {}
+ResponseEncodingOffered == \A k \in 1..Len(log) : log[k].respEnc = "identity" \/ log[k].respEnc \in Listed(log[k].accept)
 
 \* at least `retries` attempts are available before a transient failure is final
 MinAttempts ==
